@@ -32,6 +32,40 @@ RULE_B = ("LARGE files (edge / vertex files around and above 1 MiB on disk: 30k-
           "get_vertex(0..n), out_edges / in_edges of the loaded graph; a replay names the generated file parameters")
 
 
+RULE_G = ("read-back API of the application: SearchAppGraphOps::{get_edge_origin, get_edge_destination, get_edge_distance, "
+          "get_incident_edge_ids} on the SearchApp of a CompassApp built through its TOML configuration from generated "
+          "edge / vertex files (all file formats / column layouts of the files stream, explicit or scanned counts, edge "
+          "lengths 0 m .. 10^9 m); queried for every edge id and vertex id incl. two ids past the end (must be an error / "
+          "empty), the length for no unit and for every DistanceUnit. I/M/S = origins, destinations, incident edge ids "
+          "(implementation / loader model / read off the file rows); ID/MD = the lengths, bit exact against the model on "
+          "binary64; VD = verdict computed in Coq on the IMPLEMENTATION's lengths against the FILE rows: the distance "
+          "column is meters, no unit / meters must return it exactly, any other unit within 0.1 % of meters / (exact SI "
+          "metres per unit), an id that is not a row must be an error. Non-trivial = at least two edges")
+
+
+def compare_ops_distances(chk, r, binp=None, extra=()):
+    """VD != ok: the implementation's lengths contradict the file rows (a failing input); else ID != MD: the model of the
+    conversion is not the code (no failing input)"""
+    ID, MD, VD = r.impl.get("ID", {}), r.model.get("MD", {}), r.model.get("VD", {})
+    shown = 0
+    for cid, case in r.cases.items():
+        i, m, v = ID.get(cid), MD.get(cid), VD.get(cid)
+        if binp and shown < 3 and ((v is not None and v != "ok") or i != m) and any(x and x.startswith("#") for x in (i, m, v)):
+            shown += 1
+            try:   # long lines were hashed: re-run this case in full
+                fi, fm = vf.expand_case(binp, r.name, case, os.path.join(chk.outdir, "expand_ops"), extra)
+                i, m, v = fi.get("ID", i), fm.get("MD", m), fm.get("VD", v)
+            except Exception as e:  # noqa
+                vf.log("expand failed", e)
+        if v is not None and v != "ok":
+            chk.violation("impl-counterexample", "graphops", case, i, v,
+                          detail="get_edge_distance disagrees with the distance column of the edge file (meters) converted to the requested unit")
+        elif not r.errors and (m is None or v is None or i != m):
+            chk.violation("broken-correspondence", "graphops", case, i, m,
+                          detail="lengths differ from the binary64 model of get_edge_distance; the verdict on the file rows accepts them",
+                          found=False, key="corr-graphops-dist")
+
+
 def compare_big(chk, r):
     """I (implementation digest) against H (digest of the rows, computed by the harness)"""
     I, H = r.impl.get("I", {}), r.impl.get("H", {})
@@ -67,6 +101,8 @@ def run(chk):
         "modelled: a file enters the model as its decoded rows in file order plus its line count, both computed by the "
         "harness from the text it wrote",
         "std::collections::HashMap specified as a finite map with unspecified iteration order (C11)",
+        "coq/Gen/UnitTables.v generated from distance_unit.rs by translator/tr_units.py (C09's tie); exact SI metres per "
+        "unit (UnitsRun.si_distance) as the physical reference of the 0.1 % band",
         "Rust harness harness/src/bin/c15.rs and this driver"]
     chk.assumptions = [
         "documented input format: the id written on row i of the edge / vertex file is i (ids are used as indices; the "
@@ -77,7 +113,8 @@ def run(chk):
         "distances / coordinates are opaque payloads in the theorems; in the stream a coordinate is specified as the "
         "nearest binary32 (ties to even) of the decimal text, computed exactly in Coq (LoaderRun.round_b32, trusted, "
         "cross-checked against str::parse::<f32> on every run); distances are exercised with exact values k/4"]
-    chk.proofs(extra_targets=["Model/LoaderRun.vo"])
+    vf.run_translators(which=["units"])     # Model/LoaderOps imports Model/Units -> Gen/UnitTables (generated from the source)
+    chk.proofs(extra_targets=["Model/LoaderRun.vo", "Model/LoaderOpsRun.vo"])
     binp = vf.build_harness("c15")
     quick = chk.tier == "quick"
     corpus = ["--corpus", os.path.join(vf.ROOT, "corpus", "C15")]   # witnesses, replayed first in each stream
@@ -89,6 +126,11 @@ def run(chk):
         r2 = vf.run_stream(binp, "tables", 320 if quick else 3000, chk.seed, os.path.join(chk.outdir, "tables"), extra=corpus, replay=chk.replay)
         chk.add_stream(r2, RULE_T)
         vf.compare(chk, r2, classify=classify, binpath=binp, extra=corpus)
+    if _is(chk, "graphops"):
+        r4 = vf.run_stream(binp, "graphops", 120 if quick else 1200, chk.seed, os.path.join(chk.outdir, "graphops"), extra=corpus, replay=chk.replay)
+        chk.add_stream(r4, RULE_G)
+        vf.compare(chk, r4, classify=classify, binpath=binp, extra=corpus)
+        compare_ops_distances(chk, r4, binp, corpus)
     if _is(chk, "big"):
         r3 = vf.run_stream(binp, "big", 4 if quick else 10, chk.seed, os.path.join(chk.outdir, "big"), extra=corpus, shards=1, replay=chk.replay)
         chk.add_stream(r3, RULE_B)
